@@ -126,7 +126,7 @@ class Build:
         self.consts_status += "; runner built from the committed constants (model does not build with the regenerated ones)"
 
 
-def recheck_proofs(pid, workdir):
+def recheck_proofs(pid, workdir, tier="quick"):
     """coqc Properties/<pid>.v afresh; returns dict(obligations, discharged, cmd, axioms, log, ok)."""
     src = os.path.join(VERIF, "theories", "Properties", f"{pid}.v")
     with open(src) as f:
@@ -162,6 +162,19 @@ def recheck_proofs(pid, workdir):
     res["ok"] = (closed == len(printed)) and not missing and len(theorems) > 0 and all(
         a in ALLOWED_AXIOMS for a in res["axioms"]
     )
+    if tier == "thorough" and res["ok"]:
+        # independent re-check of the compiled property file and everything it depends on, with the axiom summary
+        ccmd = f"timeout 1500 coqchk -silent -o -Q theories PS PS.Properties.{pid}"
+        rc2, out2 = sh(ccmd, timeout=1600)
+        m = re.search(r"\* Axioms:(.*?)\n\s*\n", out2, re.S)
+        ax = m.group(1).strip() if m else "unparsed"
+        res["coqchk_cmd"] = ccmd
+        res["coqchk_axioms"] = ax
+        res["cmd"] += " ; " + ccmd
+        if rc2 != 0 or ax != "<none>":
+            res["ok"] = False
+            res["failed_theorem"] = f"coqchk: rc={rc2}, axioms={ax[:200]}"
+            res["log"] = out2[-2000:]
     return res
 
 
@@ -295,6 +308,7 @@ class Ctx:
             known_findings_confirmed=dict(self.known_hits),
             generated_consts=self.build.consts_status if self.build else "n/a",
             model_runner_calls=self.model.calls if self.model else 0,
+            coqchk_axioms=pr.get("coqchk_axioms", "not run (thorough tier only)"),
         )
         cov.update(self.notes)
         ev = dict(
